@@ -1,11 +1,11 @@
 (* C13/ProofsRead.v — a tract read through its erasure-coded location vs. the same tract replicated.
-   read_rs_direct_eq          : direct read of the piece, the code as it is: equal whenever the in-tract offset is 0,
+   read_rs_direct_eq          : direct read of the piece, the code before fix e1cfae8 (fx = false): equal whenever the in-tract offset is 0,
                                 or the range ends inside the tract, or the tract is empty  (the carved-out part of F15)
-   read_rs_direct_eq_fixed    : with the F15 patch: equal for EVERY offset and length
+   read_rs_direct_eq_fixed    : on the current code (fx = true, fix e1cfae8): equal for EVERY offset and length
    read_rs_reconstruct_eq(_fixed): the same when the direct piece is unavailable and the client rebuilds the
                                 window from ANY n answering pieces (uses rs_reconstruct_gen_exact)
    read_rs_fail_closed        : fewer than n good responders => error, no bytes
-   rs_read_refuted            : the F15 witness on the unrepaired model (vm_compute). *)
+   rs_read_refuted            : the F15 witness on the model of the pre-fix code (fx = false) (vm_compute). *)
 From Coq Require Import NArith List Bool Arith Lia ZifyN ZifyNat ZifyBool.
 From BLB Require Import Lib.GF256 Lib.GF256Laws Lib.RS Lib.RSLinAlg Lib.RSMds Lib.RSProofs Gen.Consts
      C13.Model C13.ProofsPack.
@@ -98,7 +98,7 @@ Proof.
   apply Nat.ltb_lt in Hj. rewrite Hj. reflexivity.
 Qed.
 
-(* arithmetic core, the code as it is: in the three carved-out classes the count and the EOF flag agree *)
+(* arithmetic core, the code before fix e1cfae8 (fx = false): in the three carved-out classes the count and the EOF flag agree *)
 Lemma direct_arith : forall o w L eoff target,
   eoff + L <= target -> (o = 0 \/ o + w <= L \/ L = 0) ->
   forall rd, rd = (if L <=? o then 0 else N.min w (L - o)) ->
@@ -118,7 +118,7 @@ Proof.
     repeat match goal with |- context [?a <? ?b] => destruct (N.ltb_spec a b) end; lia.
 Qed.
 
-(* THE CARVED-OUT PROPERTY on the code as it is: direct read of the piece *)
+(* THE CARVED-OUT PROPERTY on the code before fix e1cfae8 (fx = false): direct read of the piece *)
 Lemma read_rs_direct_eq : forall blank fail o w,
   memN (nth j (nth k (s_hosts s) []) 0) blank || memN (nth j (nth k (s_hosts s) []) 0) fail = false ->
   (o = 0 \/ o + w <= t_len tr \/ t_len tr = 0) ->
@@ -138,7 +138,7 @@ Proof.
   - rewrite Hz. reflexivity.
 Qed.
 
-(* with the F15 patch: EVERY offset and (non-empty) length *)
+(* on the current code (fx = true, fix e1cfae8): EVERY offset and (non-empty) length *)
 Lemma read_rs_direct_eq_fixed : forall blank fail o w,
   memN (nth j (nth k (s_hosts s) []) 0) blank || memN (nth j (nth k (s_hosts s) []) 0) fail = false ->
   0 < w ->
@@ -191,7 +191,7 @@ Qed.
 
 End Read.
 
-(* ---------- the F15 witness on the unrepaired model ---------- *)
+(* ---------- the F15 witness on the model of the pre-fix code (fx = false) ---------- *)
 (* one RS(6,3) stripe with piece length 65532; six 100-byte tracts, one per data piece; blob 0 = tract 0 *)
 Definition witness_state : st :=
   let trs := map (fun i => {| t_len := 100; t_a := 2 * N.of_nat i + 1; t_b := 7 |}) (seq 0 6) in
@@ -209,13 +209,13 @@ Proof.
   exists witness_state, [0%nat], 90, 20. vm_compute. repeat split; try reflexivity. discriminate.
 Qed.
 
-(* the same request on the repaired model agrees *)
+(* the same request on the model of the current code (fx = true) agrees *)
 Lemma rs_read_witness_fixed :
   read_at true witness_state true [] [] [0%nat] 90 20 = read_at true witness_state false [] [] [0%nat] 90 20.
 Proof. vm_compute. reflexivity. Qed.
 
 (* the zero-length observation: a zero-length packed tract (tract 6, at the very end of piece 0) read through
-   client-side reconstruction (host 1 failing) is an error on the unrepaired model; replicated it is (0, EOF) *)
+   client-side reconstruction (host 1 failing) is an error on the model of the pre-fix code (fx = false); replicated it is (0, EOF) *)
 Definition witness_state0 : st :=
   let trs := map (fun i => {| t_len := 100; t_a := 2 * N.of_nat i + 1; t_b := 7 |}) (seq 0 6)
              ++ [{| t_len := 0; t_a := 1; t_b := 0 |}] in
